@@ -165,7 +165,25 @@ func c10Remark(r *Rand, doc *gedcom.Document, prefix string) string {
 	return sb.String()
 }
 
+var c10JobsPool = []int{0, 1, 2, 3, 4, 5, 8, 16}
+
+// c10Jobs adds a Jobs option value to a library merge (the query function has no options).
+func c10Jobs(via string, k int) string {
+	if via != "library" {
+		return via
+	}
+	if j := c10JobsPool[k%len(c10JobsPool)]; j != 0 {
+		return "library-jobs=" + strconv.Itoa(j)
+	}
+	return via
+}
+
 func c10Opts(k int) (via string, minSim float64) {
+	via, minSim = c10Opts0(k)
+	return c10Jobs(via, k/6), minSim
+}
+
+func c10Opts0(k int) (via string, minSim float64) {
 	switch k % 6 {
 	case 1:
 		return "query", 0
